@@ -317,6 +317,19 @@ def vbint.dec : Dec Nat := fun data => if data.length = 0 then .err .missing els
 	}
 	fmt.Fprintf(&sb, "def UserProp.dec : Dec (Bytes × Bytes) := %s\n\n", pairDef)
 
+	// ---- rawdata.UnmarshalBinary (the PUBLISH payload, the body of Undefined): a copy of everything that is left
+	rawDef := "fun _ => .panic"
+	if fd := funcs["rawdata.UnmarshalBinary"]; fd != nil {
+		if b := wireBody(fd); b == "*v = make([]byte, len(data)) ; copy(*v, data) ; return nil" {
+			rawDef = "fun data =>\n  let v := copyAt (List.replicate data.length 0) 0 data\n  .ok v (Mq.Gen.rawdata.width v)"
+		} else {
+			bad = append(bad, "rawdata.UnmarshalBinary: "+b)
+		}
+	} else {
+		bad = append(bad, "rawdata.UnmarshalBinary")
+	}
+	fmt.Fprintf(&sb, "def rawdata.dec : Dec Bytes := %s\n\n", rawDef)
+
 	// ---- vbint.fill: the encoder loop
 	vbFill := false
 	if fd := funcs["vbint.fill"]; fd != nil {
